@@ -39,6 +39,9 @@ using S = bitset_detail::IntBitSet<uint8_t>;
 #define MAXN 5
 
 struct Pt { int32_t x, y; };
+// exact for the small operands of the oracle (|fee sums| < 2^12, size sums < 2^8); written with wrapping unsigned arithmetic so that no overflow instrumentation
+// (which would widen every product to 128 bits) is attached to the oracle's own arithmetic
+static inline int32_t mul(int32_t a, int32_t b) { return (int32_t)((uint32_t)a * (uint32_t)b); }
 struct Cluster {
     int n;
     int32_t fee[MAXN], size[MAXN];
@@ -62,7 +65,7 @@ static bool hull_ge(const Pt* P, int n, int32_t x, int32_t y)
     for (int i = 0; i <= n; i++) {
         if (P[i].x == x && P[i].y >= y) ok = true;
         for (int j = i + 1; j <= n; j++)
-            if (P[i].x <= x && x <= P[j].x && (y - P[i].y) * (P[j].x - P[i].x) <= (P[j].y - P[i].y) * (x - P[i].x)) ok = true;
+            if (P[i].x <= x && x <= P[j].x && mul(y - P[i].y, P[j].x - P[i].x) <= mul(P[j].y - P[i].y, x - P[i].x)) ok = true;
     }
     return ok;
 }
@@ -77,7 +80,7 @@ static bool on_hull(const Pt* P, int n, int k)
     bool ok = true;
     for (int i = 0; i < k; i++)
         for (int j = k + 1; j <= n; j++)
-            if ((P[k].y - P[i].y) * (P[j].x - P[i].x) < (P[j].y - P[i].y) * (P[k].x - P[i].x)) ok = false;
+            if (mul(P[k].y - P[i].y, P[j].x - P[i].x) < mul(P[j].y - P[i].y, P[k].x - P[i].x)) ok = false;
     return ok;
 }
 static bool is_perm(const Cluster& c, const uint32_t* L)
@@ -185,7 +188,7 @@ static void run()
         }
         VASSERT((int)chunks.size() == nexp && same, "ChunkLinearization = segments of the concave hull of the prefix points (boundaries at every on-hull point)");
         VASSERT((int)infos.size() == nexp && same_info, "ChunkLinearizationInfo = same chunks with their transaction sets");
-        for (int ci = 0; ci + 1 < NTX; ci++) if (ci + 1 < (int)chunks.size() && (int64_t)chunks[ci + 1].fee * chunks[ci].size > (int64_t)chunks[ci].fee * chunks[ci + 1].size) sorted = false;
+        for (int ci = 0; ci + 1 < NTX; ci++) if (ci + 1 < (int)chunks.size() && mul((int32_t)chunks[ci + 1].fee, chunks[ci].size) > mul((int32_t)chunks[ci].fee, chunks[ci + 1].size)) sorted = false;
         VASSERT(sorted, "chunk feerates are non-increasing");
         verif_observe(chunks.size()); for (int ci = 0; ci < NTX; ci++) if (ci < (int)chunks.size()) { verif_observe((uint64_t)chunks[ci].fee); verif_observe((uint64_t)chunks[ci].size); }
         if (NTX >= 2) { VWITNESS((int)chunks.size() == 1, "all merged into one chunk"); VWITNESS((int)chunks.size() == NTX, "every transaction its own chunk"); }
@@ -220,7 +223,7 @@ static void run()
     {
         const std::vector<FeeFrac> chunks = ChunkLinearization(dg, std::span<const DepGraphIndex>(out, NTX));
         bool sorted = true;
-        for (int ci = 0; ci + 1 < NTX; ci++) if (ci + 1 < (int)chunks.size() && (int64_t)chunks[ci + 1].fee * chunks[ci].size > (int64_t)chunks[ci].fee * chunks[ci + 1].size) sorted = false;
+        for (int ci = 0; ci + 1 < NTX; ci++) if (ci + 1 < (int)chunks.size() && mul((int32_t)chunks[ci + 1].fee, chunks[ci].size) > mul((int32_t)chunks[ci].fee, chunks[ci + 1].size)) sorted = false;
         VASSERT(sorted, "chunk feerates of the output are non-increasing");
         if (MODE == 1 || MODE == 2) {
             const std::vector<FeeFrac> chunks_in = ChunkLinearization(dg, std::span<const DepGraphIndex>(in, NTX));
